@@ -1,6 +1,7 @@
 CONSTANTS
-  Workers <- MCNoWorkers
-  NTs <- MCNTs
+  Workers <- Workers_wallts
+  NTs <- NTs_wallts
+  ThreadNames <- Threads_wallts
   WyFix = FALSE
   AllowSpurious = FALSE
 INIT Init_wallts
